@@ -15,6 +15,17 @@ func init() {
 }
 
 func c16(c *q.Ctx) {
+	// restart: the history of consensus instances is rebuilt in the order it was recorded - every call is dispatched to
+	// the LAST instance, so an order that depends on map iteration can make a retired consensus the current one
+	if np := c.Fn("kernel/consensus::NewPluggableConsensus"); np != nil {
+		c.NoMapOrder(np, "stepConsensus.put")
+	}
+	// the validator set of a candidate block: the ledger's own record at that height is consulted only for heights
+	// strictly below the tip (a candidate AT the tip's height is a sibling of the tip, not the tip)
+	if co := c.Fn("bcs/consensus/tdpos::(*tdposSchedule).CalOldProposers"); co != nil {
+		tip := "i:BlockHandle.GetHeight(i:LedgerRely.GetTipBlock(p0.ledger))"
+		c.Effect(co, q.Eff{Spec: "tdposSchedule.calHisValidators", Arg: 0, Glob: "p1", Req: []q.Cond{{Canon: "(p1 < " + tip + ")", Sense: true}}, Why: "history is read for the candidate's own height only when the ledger has a block ABOVE it", Rule: "K5"})
+	}
 	blockAgentHashes(c)
 	// ---- TDPoS
 	td := c.Fn("bcs/consensus/tdpos::(*tdposConsensus).CheckMinerMatch")
